@@ -112,7 +112,89 @@ def run(prog: Program, rep: Report, tier: str):
              "branch conditions dominating the draw")
     dino(prog, rep)
     ijepa(prog, rep)
+    collate_stateless(prog, rep)
+    flat_index_units(prog, rep)
     names.check(prog, rep, FILES, clause="C17.G1", floor=12)
+
+
+def flat_index_units(prog: Program, rep: Report):
+    """row * <stride> + col  over the mask grid: the stride is the number of columns."""
+    rep.rule("G6.flat-index", "where a mask collator computes a flat patch index as r * S + c from a grid extent S, S is the column "
+             "extent of the grid (the second size the masks are created with), r derives from a row offset (drawn against the row "
+             "extent) and c from a column offset: with the row extent as stride the indices are only right on square grids")
+    n = 0
+    for cname in ("KDIjepaMaskCollator", "KDDinoMaskCollator"):
+        C = prog.cls(cname)
+        dims = grid_dims(prog, C)
+        if dims is None:
+            continue
+        for fi in C.methods.values():
+            fa = fa_of(prog, fi)
+            # offsets by axis: drawn with integers(.., <extent> - ..)
+            axis_of = {}
+            for nn, var, val in fa.stores():
+                if val is None:
+                    continue
+                for y in ast.walk(val):
+                    if isinstance(y, ast.Call) and isinstance(y.func, ast.Attribute) and y.func.attr == "integers":
+                        t = fa.sym.term(y, nn)
+                        for ax, d in enumerate(dims):
+                            if any(x == d for x in subterms(t)):
+                                axis_of[var] = ax
+
+            def unit(e, at, depth=5):
+                us = set()
+                for y in ast.walk(fa.expand(e, at)):
+                    if isinstance(y, ast.Name):
+                        if y.id in axis_of:
+                            us.add(axis_of[y.id])
+                        elif depth > 0:
+                            for d_ in fa.cfg.reaching().get(at, {}).get(y.id, set()):
+                                v_ = fa.cfg.def_value(d_, y.id)
+                                if v_ is not None:
+                                    us |= unit(v_, d_, depth - 1)
+                return us
+            for nn in sorted(fa.cfg.nodes):
+                for x in fa.cfg.walk_node(nn):
+                    if not (isinstance(x, ast.BinOp) and isinstance(x.op, ast.Add)):
+                        continue
+                    for prod, other in ((x.left, x.right), (x.right, x.left)):
+                        if not (isinstance(prod, ast.BinOp) and isinstance(prod.op, ast.Mult)):
+                            continue
+                        for fac, stride in ((prod.left, prod.right), (prod.right, prod.left)):
+                            st_t = fa.sym.term(stride, nn)
+                            if st_t not in dims:
+                                continue
+                            ur, uc = unit(fac, nn), unit(other, nn)
+                            if not ur or not uc:
+                                continue
+                            n += 1
+                            ok = st_t == dims[1] and ur == {0} and uc == {1}
+                            rep.decide(ok, "G6.flat-index", fi, f"index:{' '.join(ast.unparse(x).split())[:60]}",
+                                       "row * columns + column",
+                                       f"the flat index {ast.unparse(x)[:60]} multiplies a {'row' if ur == {0} else 'column'} offset by "
+                                       f"{show(st_t)} and adds a {'column' if uc == {1} else 'row'} offset: the stride must be the "
+                                       f"column extent {show(dims[1])} (rows and columns agree only on square grids)",
+                                       line=x.lineno, clause="C17.3")
+    rep.floor("flat index computations (informational)", n, 0)
+
+
+def collate_stateless(prog: Program, rep: Report):
+    from ..rules.hooks import stores_on_self
+    rep.rule("G8.collate-stateless", "collate of the mask collators (private helpers inlined) writes nothing onto the collator: no "
+             "attribute, no element of an attribute container - the masks of a batch are built from objects created in that call. "
+             "(The shared step counter of the I-JEPA collator is advanced through its own lock-protected object, not by a store "
+             "on the collator.)  Mask storage kept between calls lets masks of an earlier, larger batch survive into a smaller "
+             "one: more masked samples than mask_prob allows")
+    for cname in ("KDDinoMaskCollator", "KDIjepaMaskCollator"):
+        C = prog.cls(cname)
+        fi = C.methods.get("collate")
+        if fi is None:
+            continue
+        st = stores_on_self(fa_of(prog, fi))
+        rep.decide(not st, "G8.collate-stateless", fi, "no-store-on-self", "collate writes nothing onto the collator",
+                   "; ".join(f"{w} (line {ln})" for ln, w in st[:3]) + f": {cname}.collate keeps state on the collator between "
+                   "batches", line=st[0][0] if st else fi.node.lineno, clause="C17.1")
 
 
 def dino(prog: Program, rep: Report):
